@@ -229,12 +229,27 @@ func (e *bEngine) applyHavocs(st *bState, con *Contract, bind map[string]bVal, p
 	// setlen <pointer param>.<slice field> = <expr>: the callee re-slices / grows a slice field of its receiver
 	for _, s := range con.Raw["setlen"] {
 		// setlen x.f = n ; zero : the elements the slice GAINS are polynomials holding the zero element
+		// ... ; rows <expr> : afterwards every element of the slice is a polynomial with that many rows
+		// (Element.Resize brings every component to the requested level)
 		zeroNew := false
+		var rowsExpr ast.Expr
 		if i := strings.Index(s, ";"); i >= 0 {
-			if strings.TrimSpace(s[i+1:]) != "zero" {
-				panic(verr("%s: setlen: unknown option %q", con.File, s[i+1:]))
+			for _, opt := range strings.Split(s[i+1:], ";") {
+				opt = strings.TrimSpace(opt)
+				switch {
+				case opt == "zero":
+					zeroNew = true
+				case strings.HasPrefix(opt, "rows "):
+					rx, err := parser.ParseExpr(strings.TrimSpace(strings.TrimPrefix(opt, "rows ")))
+					if err != nil {
+						panic(verr("%s: setlen: bad rows expression %q", con.File, opt))
+					}
+					rowsExpr = rx
+				default:
+					panic(verr("%s: setlen: unknown option %q", con.File, opt))
+				}
 			}
-			zeroNew, s = true, s[:i]
+			s = s[:i]
 		}
 		kv := strings.SplitN(s, "=", 2)
 		if len(kv) != 2 {
@@ -273,6 +288,18 @@ func (e *bEngine) applyHavocs(st *bState, con *Contract, bind map[string]bVal, p
 		oldLen := st.norm(cur.len)
 		cur.len, cur.cap = n, nil
 		e.storeAt(st, fp, cur)
+		if nl := st.norm(n); rowsExpr != nil && nl.IsConst() && nl.Val.IsInt64() {
+			rows := env.Term(rowsExpr)
+			for i := int64(0); i < nl.Val.Int64(); i++ {
+				ep := bPtr{obj: cur.arr, path: fmt.Sprintf("/[%d]", i)}
+				if pv, ok := e.loadAt(st, ep).(*bStruct); ok && fieldType(pv.typ, "Coeffs") != nil {
+					if cs, ok := e.field(st, pv, "Coeffs").(bSlice); ok && !cs.nil_ {
+						cs.len, cs.cap = rows, nil
+						e.storeAt(st, bPtr{obj: cur.arr, path: ep.path + "/Coeffs"}, cs)
+					}
+				}
+			}
+		}
 		if nl := st.norm(n); zeroNew && oldLen != nil && oldLen.IsConst() && nl.IsConst() && nl.Val.IsInt64() && oldLen.Val.IsInt64() {
 			for i := oldLen.Val.Int64(); i < nl.Val.Int64(); i++ {
 				pv := e.loadAt(st, bPtr{obj: cur.arr, path: fmt.Sprintf("/[%d]", i)})
@@ -963,6 +990,31 @@ func (e *bEngine) runPath(st *bState, work *[]*bState, atReturn func(st *bState,
 			case c.IsFalse() || st.seen[Not(c).Key()]:
 				tgt(st, 1)
 			default:
+				// many open paths: ask the solver whether each side is possible at all before forking
+				// (a comparison the contract's preconditions decide, but not syntactically)
+				if len(*work) >= 48 || (e.paths >= 300 && e.paths <= 400) {
+					feasible := func(t *Term) bool {
+						o := &Obligation{Name: e.name + "/branch-feasibility", Func: e.name, Kind: "feasibility", Goal: TFalse, Native: true}
+						o.Assume = append(append([]*Term(nil), st.path...), t)
+						o.Discharge(2)
+						return o.Status != "unsat"
+					}
+					f1, f0 := feasible(c), feasible(Not(c))
+					if f1 && !f0 {
+						st.assumeBranch(c)
+						tgt(st, 0)
+						break
+					}
+					if f0 && !f1 {
+						st.assumeBranch(Not(c))
+						tgt(st, 1)
+						break
+					}
+					if !f0 && !f1 {
+						e.endPath("infeasible path pruned")
+						return
+					}
+				}
 				other := st.clone()
 				other.assumeBranch(Not(c))
 				tgt(other, 1)
